@@ -15,7 +15,7 @@ TABLE = [
      "For every interior mask of frames up to 6x6 and every odd kernel shape in {1,3,5}^2 (7 in thorough) the whole "
      "blurring operator of the real Convolver is extracted on basis images / blurring images / mapping-matrix columns "
      "with a signed, sub-threshold coefficient alphabet and compared with a dense convolution matrix written from "
-     "the definition; even kernels must be rejected; simulator/whole-frame convolution cross-checked.", "4/C03"),
+     "the definition; even kernels must be rejected; simulator/whole-frame convolution cross-checked. Further classes: masks with more unmasked pixels than 127/255/32767/65535 (operator extracted with comb images), whole-frame convolution with kernels up to 9x9 on high-dynamic-range images (pixel-wise accuracy), re-masked datasets.", "4/C03"),
     ("C04", _SCOPE + " (interior masks x PSF shapes/signs x ordered linear-object lists x both formalisms)",
      "Interior masks of a 5x5 frame (and non-square-PSF frames) x non-negative and signed PSFs x ordered lists of 1..3 "
      "linear objects (2 rectangular mappers, Delaunay mapper, non-negative and signed function lists, with/without "
@@ -33,7 +33,7 @@ TABLE = [
      "patterns, config-driven adaptive maps) x 38 user functions through the decorator, array_via_func_from, "
      "binned_array_2d_from and the iterative scheme (3 schedules x accuracies x tolerances): sub-pixel positions and "
      "order, per-pixel means, areas, index tables, plain evaluation at sub-size one, and the stopping rule transcribed "
-     "from the statement with 1e-9 tie bands excluded.", "4/C09"),
+     "from the statement with 1e-9 tie bands excluded. Complete products of per-pixel sub-size maps up to {1..8}^4, {1..5}^5, {1,2,4}^6 for the index tables.", "4/C09"),
     ("C10", _SCOPE + " (all masks x odd kernel shapes vs brute-force set definitions)",
      "Every mask up to 12 (16) cells, not restricted to a masked outer ring, plus windows inside larger frames, x kernel "
      "shapes {1,3,5}^2: blurring mask (incl. the out-of-frame exception), edge and border sets with exactly the "
@@ -41,7 +41,7 @@ TABLE = [
     ("C12", _SCOPE + " (metamorphic: every entry point evaluated at origin o and o+d)",
      "Every listed entry point (39 finding classes) is evaluated on masks/datasets built at origin o and at o+d for a "
      "menu of translations incl. non-dyadic and large ones; coordinate results must shift by d, index/count/weight/"
-     "matrix results must be identical.", "4/C12"),
+     "matrix results must be identical. Translations with special structure (axis-aligned, equal components, pixel-scale multiples, minus the origin, larger than the mask) and the library's own subtracted_from / grid_offset routes.", "4/C12"),
     ("C14", _SCOPE + " (all shape pairs x kernels x masks x geometries)",
      "All (input shape, target shape) pairs with sides 1..5 -> 1..7 (1..6 -> 1..8 thorough), all extraction windows of "
      "small frames, odd kernels up to 7, all masks of small frames: centred window/embedding law with the parity "
@@ -50,7 +50,7 @@ TABLE = [
     ("C16", _SCOPE + " + explicit-state file model (all write/delete histories to depth 3/4)",
      "Shapes x masks x pixel scales x flip setting x routes (file and HDU; Array2D, Mask2D, Kernel2D, Array1D, Mask1D, "
      "Imaging) round-tripped through real FITS I/O in scratch directories; overwrite semantics checked on every event "
-     "history up to depth 3 (4) against a 3-state file model.", "4/C16"),
+     "history up to depth 3 (4) against a 3-state file model. File model extended by directory state (0-3 missing levels, bare names, path spellings) and configuration histories of flip_for_ds9.", "4/C16"),
     ("C19", _SCOPE + " (fully exhaustive over shapes, regions, corners, windows, ranges)",
      "All shapes up to 5x5 (6x6), all valid regions, all four read-out corners, all region x window pairs, all front/"
      "trailing ranges and all small invalid tuples: rotation commutation/involution, extraction overlap law, sub-region "
@@ -58,44 +58,44 @@ TABLE = [
     ("C20", _SCOPE + " (all subsets of a 3x3 coordinate window x parity x flip x scale)",
      "All 511 non-empty subsets of a 3x3 integer-coordinate window x lattice parities x flip x side lengths x offsets, in "
      "both representations: up-sampling (children, count, area, vertices), neighbourhood as geometric sets, index "
-     "selection, representation agreement and shape containment on a 7x7 reference lattice.", "4/C20"),
+     "selection, representation agreement and shape containment on a 7x7 reference lattice. Side lengths 1e-5..1e3 with 18 refinement levels, irregular fans / strips / moved patches, kept results inspected after interleaved calls.", "4/C20"),
     ("C06", _SCOPE + " (all small masks x sub-size maps x source-plane menus x rectangular and Delaunay meshes)",
      "All masks with <= 9 cells x sub-size maps (uniform 1..4, per-pixel int and float maps, every map in {1,2,3}^n for n<=3) "
      "and 44 mesh geometries (4 source-plane distortions x 5 rectangular shapes + 6 Delaunay vertex menus): mapping matrix, "
      "row sums, cell / simplex / barycentric weights against an independent interval-arithmetic overlay and a from-scratch "
-     "empty-circumcircle Delaunay triangulation, dense vs unique-mapping encodings, neighbour tables.", "4/C06"),
+     "empty-circumcircle Delaunay triangulation, dense vs unique-mapping encodings, neighbour tables. Read-order histories on one mesh / mapper object (every ordered pair of 12-16 reads first, all tables re-read).", "4/C06"),
     ("C07", _SCOPE + " (meshes x nine schemes x parameter menus; ordered object lists for block placement)",
      "Rectangular meshes 3..6^2 (7^2) and 8 Delaunay vertex menus x all nine regularization schemes x coefficient / signal-"
      "scale / adapt-image menus: size, symmetry, PSD / strict PD with Cholesky and the evidence's log-determinant, and the "
      "entrywise quadratic form against a Laplacian assembled from an independent adjacency; block placement through "
-     "aa.Inversion on every ordered list of 1..3 object kinds with every regularization pattern.", "4/C07"),
+     "aa.Inversion on every ordered list of 1..3 object kinds with every regularization pattern. Kernel schemes with scale lengths 0.1..10 x field (condition-aware tolerances) and lists with repeated instances.", "4/C07"),
     ("C08", _SCOPE + " (all small masks x two evaluation modes x garbage menus; inversion lists for the evidence)",
      "All masks with <= 9 cells x value menus x sky offsets in the slim mode and, with four garbage placements in masked "
      "pixels, in the masked-native mode; all 502 interior masks of the 5x5 frame x a rotating third of 54 ordered object "
      "lists x both formalisms for the evidence terms (determinants on matrices reduced to regularized parameters); every "
-     "statistic and derived map against its definition.", "4/C08"),
+     "statistic and derived map against its definition. Further classes: structures carried under their own different mask, datasets in units 1e-40..1e+40, a 324-parameter inversion, non-diagonally-dominant regularization matrices.", "4/C08"),
     ("C13", _SCOPE + " (masks x geometries x baseline sets x preload on/off; operator extraction on basis vectors)",
      "All masks with <= 8 cells x geometries x baseline sets (zero, repeated, generic) x preload on/off: visibilities, "
      "transformed mapping matrices (signed / sub-threshold alphabet) and the adjoint image against an explicit DFT "
      "matrix; interferometer data vector and curvature matrix on ordered object lists against noise-weighted Gram "
-     "products.", "4/C13"),
+     "products. Further classes: baseline arrays edited in place after construction, exactly cancelling signed columns, datasets scaled by 1e-12..1e+12.", "4/C13"),
     ("C17", _SCOPE + " (all small masks / irregular sets / 1D masks x function grammar x decorators)",
      "All masks with <= 9 cells x pixel scales x origins, irregular coordinate menus, all 1D masks of length <= 6, and "
      "relocation rings, through to_array / to_grid / to_vector_yx / project_grid / transform / relocate_to_radial_minimum "
      "(alone and stacked) with injective, non-symmetric user functions (single, pair and list returns): container type, "
-     "mask, entry k = f(coordinate k), projection geometry, relocation to exactly the minimum.", "4/C17"),
+     "mask, entry k = f(coordinate k), projection geometry, relocation to exactly the minimum. Explicit keyword forms, configuration histories of the radial minimum, subclass instances of the dispatched containers.", "4/C17"),
     ("C18", _SCOPE + " (all small masks x sub-size maps x source-plane menus with outliers)",
      "All masks of frames with <= 9 cells (frame-touching included), all masks of the 3x3 interior of a 5x5 frame and of "
      "the 3x4/4x3 frames x sub-size maps x ten source-plane transforms with outliers, border copies and the centroid: "
      "interior points bitwise unchanged, on-ray, never outward, nearest-border radius, order preserved, mesh-vertex "
-     "variant, farthest sub-pixel selection, mapper_grids_from wrappers.", "4/C18"),
+     "variant, farthest sub-pixel selection, mapper_grids_from wrappers. Ten exactly many-to-one transforms (coinciding border points) and outliers confined to the border's bounding box, through direct and mesh entry points.", "4/C18"),
     ("C11", "explicit-state breadth-first exploration of read/derive histories on real object graphs (state = content hash of the graph)",
      "Six families of real object graphs (structures; imaging datasets; inversion + mappers + valued mapper for four "
      "object lists in both formalisms and with the positive solver; calls relying on shared default arguments; seeded "
      "simulation under a perturbed global RNG) are explored breadth-first over all histories of reads, queries and "
      "derivations to the stated depth with state de-duplication; on every transition the value read must equal the "
      "pristine-graph value (and, for derived objects, the value of a fresh object built from the same contents) and "
-     "the fingerprints of all caller-owned inputs and shared defaults must be unchanged.", "4/C11"),
+     "the fingerprints of all caller-owned inputs and shared defaults must be unchanged. Content reads of every handed-on structure, windows sticking out of arrays, natively stored structures re-masked.", "4/C11"),
     ("C15", "explicit-state breadth-first exploration of histories of successive inversions sharing one Preloads object",
      "For every assignment of the public preload slots (48) x formalism setting x object list x mask, all histories of "
      "successive inversions (3 read orders x fresh/reused linear objects) sharing the Preloads object and dataset are "
